@@ -6,8 +6,12 @@ import (
 	"encoding/hex"
 	"fmt"
 	"slices"
+	"sort"
 	"strconv"
 	"strings"
+	"sync"
+	"unicode"
+	"unicode/utf8"
 
 	"github.com/ollama/ollama/model"
 	"github.com/ollama/ollama/zzverif/evid"
@@ -22,6 +26,7 @@ type tok struct {
 	memo map[string]*verdict // verdicts of short sequences (core search)
 	conf map[string]*confirmed
 	ctl  map[int32]bool // ids of control tokens
+	found map[string]*finding // violations seen since the last flush, by signature
 
 	nEval, nNontrivial, nAmbiguous int64 // flushed into the evidence per work item
 }
@@ -30,6 +35,7 @@ type tok struct {
 type confirmed struct {
 	clause string
 	msg    string
+	sig    string
 }
 
 func newTok(sp *tokSpec) (*tok, error) {
@@ -37,7 +43,7 @@ func newTok(sp *tokSpec) (*tok, error) {
 	if err != nil {
 		return nil, err
 	}
-	t := &tok{tokSpec: sp, tp: tp, memo: map[string]*verdict{}, conf: map[string]*confirmed{}, ctl: map[int32]bool{}}
+	t := &tok{tokSpec: sp, tp: tp, memo: map[string]*verdict{}, conf: map[string]*confirmed{}, ctl: map[int32]bool{}, found: map[string]*finding{}}
 	for _, id := range sp.control {
 		t.ctl[id] = true
 	}
@@ -111,45 +117,56 @@ func (t *tok) check(k kase) (v *verdict) {
 		v.ambiguous = true
 	}
 	// special-token clause: the control-token ids in the output are exactly the ids of the
-	// control literals of the input, in order, and the pieces between them decode to the
-	// text between the literals.
+	// control literals occurring in the input text, in order, and the tokens between them
+	// decode to the text between the literals. (Control literals of these vocabularies
+	// cannot overlap each other, so a left-to-right scan of the text is unambiguous.)
 	var wantSpecial []int32
 	var segs []string
-	cur := ""
-	for _, s := range k.syms {
-		if id, ok := t.control[s]; ok {
-			wantSpecial = append(wantSpecial, id)
-			segs = append(segs, cur)
-			cur = ""
-		} else {
-			cur += s
+	from := 0
+	for i := 0; i < len(text); {
+		hit := ""
+		if text[i] == '<' {
+			for lit := range t.control {
+				if strings.HasPrefix(text[i:], lit) {
+					hit = lit
+					break
+				}
+			}
 		}
+		if hit == "" {
+			i++
+			continue
+		}
+		wantSpecial = append(wantSpecial, t.control[hit])
+		segs = append(segs, text[from:i])
+		i += len(hit)
+		from = i
 	}
-	segs = append(segs, cur)
+	segs = append(segs, text[from:])
 	var gotSpecial []int32
 	var idSegs [][]int32
-	var curIDs []int32
-	for _, id := range ids {
-		if t.isControl(id) {
+	start := 0
+	for i, id := range ids {
+		if t.ctl[id] {
 			gotSpecial = append(gotSpecial, id)
-			idSegs = append(idSegs, curIDs)
-			curIDs = nil
-		} else {
-			curIDs = append(curIDs, id)
+			idSegs = append(idSegs, ids[start:i])
+			start = i + 1
 		}
 	}
-	idSegs = append(idSegs, curIDs)
+	idSegs = append(idSegs, ids[start:])
 	if !slices.Equal(gotSpecial, wantSpecial) {
 		v.clause = "special-id"
-		v.detail = fmt.Sprintf("control-token ids in the output are %v, the literals in the input are %v", gotSpecial, wantSpecial)
+		v.detail = fmt.Sprintf("control-token ids in the output are %v, the control literals in the input are %v", gotSpecial, wantSpecial)
 		return
 	}
-	for i := range segs {
-		d, err := t.tp.Decode(idSegs[i])
-		if err != nil || d != t.want(segs[i], k.norm) {
-			v.clause = "special-id"
-			v.detail = fmt.Sprintf("tokens between special ids (segment %d) decode to %s, the text there is %s", i, strconv.QuoteToASCII(d), strconv.QuoteToASCII(segs[i]))
-			return
+	if len(wantSpecial) > 0 {
+		for i := range segs {
+			d, err := t.tp.Decode(idSegs[i])
+			if err != nil || d != t.want(segs[i], k.norm) {
+				v.clause = "special-id"
+				v.detail = fmt.Sprintf("the tokens between the special ids (segment %d) decode to %s, the text there is %s", i, strconv.QuoteToASCII(d), strconv.QuoteToASCII(segs[i]))
+				return
+			}
 		}
 	}
 	// addSpecial=true: same text modulo an optional leading BOS / trailing EOS (short cases only)
@@ -193,8 +210,6 @@ func (t *tok) check(k kase) (v *verdict) {
 	return
 }
 
-func (t *tok) isControl(id int32) bool { return t.ctl[id] }
-
 func (t *tok) flush(r *evid.Run, subrun string) {
 	r.Add("evaluations", t.nEval)
 	r.Add("cases/"+t.name+"/"+subrun, t.nEval)
@@ -205,6 +220,10 @@ func (t *tok) flush(r *evid.Run, subrun string) {
 		r.Add("spm_u2581_cases_returned_as_space", t.nAmbiguous)
 	}
 	t.nEval, t.nNontrivial, t.nAmbiguous = 0, 0, 0
+	for _, f := range t.found {
+		mergeFinding(f)
+	}
+	clear(t.found)
 }
 
 func (t *tok) nontrivial(k kase, v *verdict) bool {
@@ -238,7 +257,9 @@ func (t *tok) failsMemo(k kase) bool {
 	if v == nil {
 		v = t.check(k)
 		v.ids, v.dec = nil, ""
-		t.memo[key] = v
+		if len(t.memo) < 200000 {
+			t.memo[key] = v
+		}
 	}
 	return v.clause != ""
 }
@@ -257,36 +278,91 @@ func (t *tok) core(k kase) kase {
 	return k
 }
 
-// sigName renders a core for the violation signature: plain symbols as a quoted ASCII
-// string, literals that stand for a class by the class name.
-func (t *tok) sigName(k kase) string {
-	var sb strings.Builder
-	plain := ""
-	flush := func() {
-		if plain != "" {
-			sb.WriteString(strconv.QuoteToASCII(plain))
-			plain = ""
-		}
-	}
-	for _, s := range k.syms {
-		name := ""
+// sigName renders the defect class of a minimal failing core for the violation signature.
+//
+//   - a core that is one literal standing for a class (control-token literal, the literal of
+//     vocabulary entry 105/106, a <0xNN> literal) is named by that class;
+//   - a core that is one code point failing the round trip is named by what happens to its
+//     bytes (which byte comes back as which other byte / which kind of byte is lost / the whole
+//     code point of which category is lost), so that one byte-level or one category-level
+//     defect gives one signature for all code points it affects;
+//   - a longer core is named by the classes of its symbols (literal classes, Unicode major
+//     category of plain code points).
+func (t *tok) sigName(k kase, v *verdict) string {
+	class := func(s string) string {
 		switch {
 		case s == t.v105 || s == t.v106:
-			name = "[literal of vocabulary entry 105/106]"
+			return "[literal of vocabulary entry 105/106]"
 		case t.isControlLit(s):
-			name = "[control-token literal]"
+			return "[control-token literal]"
 		case len(s) == 6 && strings.HasPrefix(s, "<0x") && strings.HasSuffix(s, ">"):
-			name = "[<0xNN> literal]"
+			return "[<0xNN> literal]"
+		case utf8.RuneCountInString(s) != 1:
+			return "[partial control literal]"
 		}
-		if name == "" {
-			plain += s
-		} else {
-			flush()
-			sb.WriteString(name)
+		return ""
+	}
+	if len(k.syms) == 1 {
+		s := k.syms[0]
+		if c := class(s); c != "" {
+			return c
+		}
+		r, _ := utf8.DecodeRuneInString(s)
+		if v.clause != "roundtrip" {
+			return fmt.Sprintf("code point (%d-byte, category %s)", len(s), majorCategory(r))
+		}
+		exp, dec := t.want(s, k.norm), v.dec
+		switch {
+		case dec == "":
+			return fmt.Sprintf("code point lost (%d-byte, category %s)", len(s), majorCategory(r))
+		case len(dec) > len(exp):
+			return "extra bytes decoded"
+		}
+		i := 0
+		for i < len(dec) && dec[i] == exp[i] {
+			i++
+		}
+		if len(dec) == len(exp) {
+			return fmt.Sprintf("byte 0x%02x decoded as 0x%02x", exp[i], dec[i])
+		}
+		return byteClass(exp[i]) + " byte lost"
+	}
+	var parts []string
+	for _, s := range k.syms {
+		c := class(s)
+		if c == "" {
+			r, _ := utf8.DecodeRuneInString(s)
+			c = majorCategory(r)
+		}
+		parts = append(parts, c)
+	}
+	return strings.Join(parts, "+")
+}
+
+func byteClass(b byte) string {
+	switch {
+	case b < 0x80:
+		return "ASCII"
+	case b < 0xc0:
+		return "continuation"
+	case b < 0xe0:
+		return "2-byte-lead"
+	case b < 0xf0:
+		return "3-byte-lead"
+	}
+	return "4-byte-lead"
+}
+
+func majorCategory(r rune) string {
+	for _, c := range []struct {
+		n string
+		t *unicode.RangeTable
+	}{{"L", unicode.L}, {"M", unicode.M}, {"N", unicode.N}, {"P", unicode.P}, {"S", unicode.S}, {"Z", unicode.Z}, {"C", unicode.C}} {
+		if unicode.Is(c.t, r) {
+			return c.n
 		}
 	}
-	flush()
-	return sb.String()
+	return "Cn"
 }
 
 func (t *tok) isControlLit(s string) bool { _, ok := t.control[s]; return ok }
@@ -340,9 +416,68 @@ func (t *tok) run(r *evid.Run, subrun string, k kase, counted bool) {
 			}
 		}
 		cf.msg = "smallest failing input: " + describe(t, c, cv)
-		t.conf[ckey] = cf
+		cf.sig = "C20/" + t.family + "/" + cf.clause + "/" + t.sigName(c, cv)
+		if len(t.conf) < 50000 {
+			t.conf[ckey] = cf
+		}
 	}
-	sig := "C20/" + t.family + "/" + cf.clause + "/" + t.sigName(c)
-	// evid keeps the first message per signature; later calls only count
-	r.Violation(sig, cf.msg, replayCase{Tok: t.name, Subrun: subrun, Syms: slices.Clone(c.syms), Hex: hex.EncodeToString([]byte(c.text())), Norm: c.norm})
+	f := t.found[cf.sig]
+	if f == nil {
+		f = &finding{sig: cf.sig}
+		t.found[cf.sig] = f
+	}
+	f.count++
+	if ct := c.text(); f.msg == "" || len(ct) < len(f.core) || (len(ct) == len(f.core) && ct < f.core) {
+		f.core, f.msg = ct, cf.msg
+		f.replay = replayCase{Tok: t.name, Subrun: subrun, Syms: slices.Clone(c.syms), Hex: hex.EncodeToString([]byte(ct)), Norm: c.norm}
+	}
+}
+
+// finding accumulates the cases attributed to one signature and keeps the smallest core.
+type finding struct {
+	sig    string
+	count  int64
+	core   string
+	msg    string
+	replay replayCase
+}
+
+var (
+	findMu   sync.Mutex
+	findings = map[string]*finding{}
+)
+
+func mergeFinding(f *finding) {
+	findMu.Lock()
+	defer findMu.Unlock()
+	g := findings[f.sig]
+	if g == nil {
+		findings[f.sig] = f
+		return
+	}
+	g.count += f.count
+	if len(f.core) < len(g.core) || (len(f.core) == len(g.core) && f.core < g.core) ||
+		(f.core == g.core && f.replay.Tok < g.replay.Tok) {
+		g.core, g.msg, g.replay = f.core, f.msg, f.replay
+	}
+}
+
+// reportFindings hands the accumulated violations to evid, smallest core first.
+func reportFindings(r *evid.Run) {
+	var l []*finding
+	for _, f := range findings {
+		l = append(l, f)
+	}
+	sort.Slice(l, func(i, j int) bool {
+		if len(l[i].core) != len(l[j].core) {
+			return len(l[i].core) < len(l[j].core)
+		}
+		return l[i].sig < l[j].sig
+	})
+	for _, f := range l {
+		msg := fmt.Sprintf("%s\n(%d enumerated cases fail with this core class)", f.msg, f.count)
+		for i := int64(0); i < f.count; i++ {
+			r.Violation(f.sig, msg, f.replay)
+		}
+	}
 }
